@@ -15,6 +15,35 @@ func isConcByte(v value) bool {
 
 // cellsToString converts byte cells to a string value.
 func cellsToString(cells []value) value {
+	if len(cells) >= 1 {
+		// concatenations of plain bytes and "str" blobs convert back to strings
+		hasStr := false
+		for _, c := range cells {
+			if b, ok := c.(blobByte); ok && b.kind == "str" {
+				hasStr = true
+			}
+		}
+		if hasStr {
+			var out value = ""
+			run := []value{}
+			flush := func() {
+				if len(run) > 0 {
+					out = concatStr(out, cellsToString(run))
+					run = []value{}
+				}
+			}
+			for _, c := range cells {
+				if b, ok := c.(blobByte); ok && b.kind == "str" {
+					flush()
+					out = concatStr(out, b.v)
+				} else {
+					run = append(run, c)
+				}
+			}
+			flush()
+			return out
+		}
+	}
 	allConc := true
 	for _, c := range cells {
 		if !isConcByte(c) {
@@ -54,7 +83,8 @@ func (s *SymStr) toCells(fr *frame) []value {
 		case "b":
 			out = append(out, p.cells...)
 		default:
-			abort("unmodelled", "byte access into formatted symbolic string %s", s)
+			// variable-length symbolic text: the whole string becomes one opaque cell
+			return []value{blobByte{kind: "str", v: s}}
 		}
 	}
 	if out == nil {
@@ -432,6 +462,12 @@ func compareCells(fr *frame, xs, ys []value) value {
 }
 
 func eqBlob(fr *frame, a, b blobByte) value {
+	if a.kind == "str" || b.kind == "str" {
+		if a.kind != b.kind {
+			return false
+		}
+		return eqStr(fr, a.v, b.v)
+	}
 	if a.key != nil && b.key != nil {
 		return simp(Eq(a.key, b.key))
 	}
